@@ -11,7 +11,9 @@ position 0..len(doc) is then checked against that record (never against the impl
    to outermost, wherever in the file the position is.
  * balanced_inward(): the item at the position, then its chain of first children.
  * braces / colons / semicolons inside comments, strings, parenthesised expressions never delimit (the
-   generator puts them there; the recorded structure ignores them).
+   generator puts them there; the recorded structure ignores them).  Parenthesised expressions are also generated
+   from a grammar (nested maps / calls with keyword arguments, clauses css-nested-parens*), string bodies likewise
+   (clauses css-string-*).
 
 Positions are partitioned into zones, and generator features into separate clauses, only so that one known
 defect does not mask everything else; the oracle is the same everywhere and every position is in some clause.
@@ -152,6 +154,38 @@ def check_string(quote, pieces, place):
     return check_sheet(sheet, 'moi', _ZONESETS['all'])
 
 
+NEST_STYLES = [(':', ','), (': ', ', ')]     # spelling of `key: val` and of the entry separator
+
+
+def check_nested(expr_json, style, place):
+    """one stylesheet of the systematic nested-parentheses family: the expression tree (c10_gen.nest_text) written in
+    NEST_STYLES[style] at `place` (c10_gen.NEST_PLACES), compact layout, every position, all three functions"""
+    tree = json.loads(expr_json)
+    colon, comma = NEST_STYLES[style]
+    text = G.nest_text(tree, colon, comma)
+    # domain guard (the record treats the expression as an opaque part of one value / selector token, which is what the
+    # statement says as long as it is balanced and free of the characters the known findings P / L are about)
+    depth = 0
+    for ch in text:
+        depth += (ch == '(') - (ch == ')')
+        assert depth >= 0 and ch not in ';{}"\'/\\', text
+    assert depth == 0 and text.startswith('(') and text.endswith(')'), text
+    sheet = G.render(G.nest_sheet_tree(text, place))
+    return check_sheet(sheet, 'moi', _ZONESETS['all'])
+
+
+def _nests(specs):
+    """specs: (depth, width, calls, style, places) -> cases (expr_json, style, place) over c10_gen.nest_family"""
+    seen = set()
+    for depth, width, calls, style, places in specs:
+        for place in places:
+            for tree in G.nest_family(depth, width, calls):
+                case = (json.dumps(tree, separators=(',', ':')), style, place)
+                if case not in seen:        # overlapping specs (depth 3 width 1 contains depth 2 width 1)
+                    seen.add(case)
+                    yield case
+
+
 def _strings(maxlen_main, maxlen_other):
     for place in sorted(G.STRING_PLACES):
         maxlen = maxlen_main if place in ('value', 'attr') else maxlen_other
@@ -224,6 +258,28 @@ def run(tier, seed):
                bound='bodies of 1..%d pieces at places value / attr, 1..%d pieces elsewhere; every position 0..len(doc), all zones' % (lmain, lother),
                rule='a case is one stylesheet; distinct by (quote, piece indices, place)', exhaustive=True)
     run_parallel(c, 'bounded.c10', 'check_string', _strings(lmain, lother), chunk=100)
+    c.done()
+    out.append(c)
+
+    # Nested parentheses (notes/C10.md, "Nested parentheses"): generated maps of maps / calls with keyword arguments.
+    rnd('css-nested-parens', 'N', 'all', 64 if quick else 500, 8 if quick else 24,
+        'generated nested parenthesised expressions (depth 1..4: maps of maps, calls with keyword and parenthesised '
+        'arguments; colons, commas, blanks, new-lines only) as value tokens and in at-rule preludes / functional '
+        'pseudo-classes; all zones', seed)
+    others = sorted(p for p in G.NEST_PLACES if p != 'first')
+    if quick:
+        specs = [(2, 2, True, 0, ['first']), (2, 2, False, 0, others), (2, 2, False, 1, ['top'])]
+    else:
+        specs = [(2, 2, True, 0, sorted(G.NEST_PLACES)), (2, 2, True, 1, sorted(G.NEST_PLACES)),
+                 (2, 3, False, 0, ['first']), (3, 1, True, 0, sorted(G.NEST_PLACES))]
+    c = Clause('css-nested-parens-exhaustive', 'B',
+               generator='`<sel>{<name>:<value>;c:d;e{f:g;}}h{i:j;}` (compact; places `top` / `inner`: the declaration between two '
+                         'top-level rules / in the nested rule) with one parenthesised expression E: every group tree of depth <= d '
+                         'with 1..w entries per group, entry = `k:`-keyed or positional, value = `1`, a bare sub-group or a '
+                         'sub-group named `f`; spelling %r; places %r' % (NEST_STYLES, sorted(G.NEST_PLACES)),
+               bound='(depth, width, named sub-groups, spelling, places) = %r; every position 0..len(doc), all zones' % (specs,),
+               rule='a case is one stylesheet; distinct by (expression tree, spelling, place)', exhaustive=True)
+    run_parallel(c, 'bounded.c10', 'check_nested', _nests(specs), chunk=60)
     c.done()
     out.append(c)
 
